@@ -65,13 +65,15 @@ func (c *connection) onClose() error {
 		return nil
 	}
 
-	// closed by poller
+	// closed by poller, or by a concurrent Close/Detach of the user
+	closedBy := c.status(closing)
 	// still need to change closing status to `user` since OnProcess should not be processed again
 	c.force(closing, user)
 
 	// user code should actively close the connection to recycle resources.
-	// poller already detached operator
-	return c.closeCallback(true, false)
+	// poller already detached operator; a concurrent user close may not have got to its detach yet
+	// (whoever takes the processing lock first runs the callbacks), so detach here too: it happens once.
+	return c.closeCallback(true, closedBy != poller)
 }
 
 // closeBuffer recycle input & output LinkBuffer.
